@@ -448,7 +448,7 @@ def mg78(F, R):
         for dx in diff:
             a, b2 = dx[2][0], dx[2][1]
             lhs_right = mentions(a, lambda y: y[0] == "call" and y[1].endswith("::keys") and y[2] and strip_load(y[2][0]) == gp)
-            rhs_map = mentions(b2, lambda y: y[0] == "iter" and y[2] == "keys" and strip_sites(strip_load(y[1])) == strip_sites(mapx))
+            rhs_map = mentions(b2, lambda y: y[0] == "iter" and y[2] in ("keys", "into_keys") and strip_sites(strip_load(y[1])) == strip_sites(mapx))
             if lhs_right and rhs_map:
                 okdiff = True
         sorts = [(s, t) for s, t in m.calls() if t["callee"].get("name") in ("sort", "sort_unstable", "sorted", "sort_by_key") and m.dominates(s, site)]
@@ -494,7 +494,7 @@ def mg78(F, R):
                     recv = unload(subst(ce[2][0], mapping))
                     arg_is_item = mentions(ce[2][1], lambda y: y == ("param", 2))
                     of_map = strip_sites(strip_load(recv)) == strip_sites(mapx) or \
-                        (mentions(recv, lambda y: y[0] == "iter" and y[2] == "keys" and strip_sites(strip_load(y[1])) == strip_sites(mapx)) and
+                        (mentions(recv, lambda y: y[0] == "iter" and y[2] in ("keys", "into_keys") and strip_sites(strip_load(y[1])) == strip_sites(mapx)) and
                          not mentions(recv, lambda y: y[0] == "iter" and y[2] in ("values", "values_mut", "into_values")))
                     if arg_is_item and of_map:
                         okdiff = True
